@@ -154,6 +154,13 @@ fn build_add(lhs: &AstNode, rhs: &AstNode) -> Result<Evaluator> {
           value_null!("addition err 3")
         }
       }
+      Value::YearsAndMonthsDuration(lh) => {
+        if let Value::YearsAndMonthsDuration(rh) = rhv {
+          ym_duration_or_null(lh.as_months().checked_add(rh.as_months()))
+        } else {
+          value_null!("addition err 4")
+        }
+      }
       value @ Value::Null(_) => value,
       _ => value_null!("addition err"),
     }
@@ -1241,6 +1248,7 @@ fn build_neg(lhs: &AstNode) -> Result<Evaluator> {
     match lhv {
       Value::Number(lh) => Value::Number(-lh),
       Value::DaysAndTimeDuration(lh) => Value::DaysAndTimeDuration(-lh),
+      Value::YearsAndMonthsDuration(lh) => ym_duration_or_null(lh.as_months().checked_neg()),
       _ => value_null!("arithmetic negation err 1"),
     }
   }))
@@ -1608,11 +1616,30 @@ fn build_sub(lhs: &AstNode, rhs: &AstNode) -> Result<Evaluator> {
           }
         }
       }
+      Value::DaysAndTimeDuration(ref lh) => {
+        if let Value::DaysAndTimeDuration(ref rh) = rhv {
+          return Value::DaysAndTimeDuration(lh.clone() - rh.clone());
+        }
+      }
+      Value::YearsAndMonthsDuration(ref lh) => {
+        if let Value::YearsAndMonthsDuration(ref rh) = rhv {
+          return ym_duration_or_null(lh.as_months().checked_sub(rh.as_months()));
+        }
+      }
       _ => {}
     }
     //TODO make a macro for incompatible types
     value_null!("[subtraction] incompatible types: {} - {}", lhv as Value, rhv as Value)
   }))
+}
+
+/// Returns years and months duration having the calculated number of months, or null when the calculation
+/// has overflown; `i64::MIN` is also out of range, because its magnitude can not be represented.
+fn ym_duration_or_null(months: Option<i64>) -> Value {
+  match months {
+    Some(months) if months != i64::MIN => Value::YearsAndMonthsDuration(FeelYearsAndMonthsDuration::new_m(months)),
+    _ => value_null!("years and months duration is out of range"),
+  }
 }
 
 ///
